@@ -1074,6 +1074,8 @@ def _b_isinstance(P, a, k):
 def _isinst1(P, x, cname):
     if cname == "object":
         return True
+    if x is Ellipsis:
+        return cname == "ellipsis"
     if x is None:
         return cname in ("NoneType",)
     if isinstance(x, (bool, SBool)):
@@ -1393,8 +1395,20 @@ def _b_next(P, a, k):
 
 def _b_type(P, a, k):
     (x,) = a
+    if isinstance(x, SUnion):
+        x = P.choose(x)
     if isinstance(x, SObj):
         return ClassRef(P.resolve_cls(x))
+    if x is Ellipsis:
+        return ClassRef("ellipsis")
+    if x is None:
+        return ClassRef("NoneType")
+    if isinstance(x, (bool, SBool)):
+        return ClassRef("bool")
+    if isinstance(x, (int, SInt)):
+        return ClassRef("int")
+    if isinstance(x, (str, SStr)):
+        return ClassRef("str")
     raise _unsup("type()")
 
 
